@@ -8,7 +8,7 @@ WT = sys.argv[1]
 OUT = sys.argv[2]
 FILES = sys.argv[3:] or ["core/src/server.rs", "core/src/inmemory.rs", "server/src/api/mod.rs", "server/src/api/add_version.rs",
                          "server/src/api/add_snapshot.rs", "server/src/api/get_child_version.rs", "server/src/api/get_snapshot.rs"]
-UNITS = {"core/src/server.rs": ["u1"], "core/src/inmemory.rs": ["u2"], "server/src/api/mod.rs": ["u3"], "server/src/api/add_version.rs": ["u3"],
+UNITS = {"server/src/bin/taskchampion-sync-server.rs": ["u4"], "server/src/lib.rs": ["u3"], "core/src/server.rs": ["u1"], "core/src/inmemory.rs": ["u2"], "server/src/api/mod.rs": ["u3"], "server/src/api/add_version.rs": ["u3"],
          "server/src/api/add_snapshot.rs": ["u3"], "server/src/api/get_child_version.rs": ["u3"], "server/src/api/get_snapshot.rs": ["u3"]}
 OPS = [(r"==", "!="), (r"!=", "=="), (r"&&", "||"), (r"\|\|", "&&"), (r"<=", "<"), (r">=", ">"), (r"(?<![-=<>!])>(?![=>])", ">="), (r"(?<![<=])<(?![=<])", "<="),
        (r"\+", "-"), (r"-= 1", "-= 2"), (r"\+= 1", "+= 2"), (r"\b0\b", "1"), (r"\b5\b", "4"), (r"\b5\b", "6"), (r"\b3 / 2\b", "2 / 1"), (r"\b100 \* 1024", "10 * 1024"),
@@ -17,7 +17,10 @@ OPS = [(r"==", "!="), (r"!=", "=="), (r"&&", "||"), (r"\|\|", "&&"), (r"<=", "<"
        (r"ErrorNotFound", "ErrorGone"), (r"ErrorGone", "ErrorNotFound"), (r"ErrorBadRequest", "ErrorInternalServerError"), (r"ErrorForbidden", "ErrorBadRequest"),
        (r"VERSION_ID_HEADER", "PARENT_VERSION_ID_HEADER"), (r"HttpResponse::Ok", "HttpResponse::Conflict"), (r"HttpResponse::Conflict", "HttpResponse::Ok"),
        (r"self\.client_id", "version_id"), (r"continue;", "return Err(error::ErrorNotFound(\"x\"));"), (r"txn\.commit\(\)\?;", ""), (r"self\.written = true;", ""),
-       (r"\.is_some\(\)", ".is_none()"), (r"\.is_none\(\)", ".is_some()"), (r"\.is_empty\(\)", ".len() == 1")]
+       (r"\.is_some\(\)", ".is_none()"), (r"\.is_none\(\)", ".is_some()"), (r"\.is_empty\(\)", ".len() == 1"),
+       (r"server_args\.snapshot_days", "14"), (r"server_args\.snapshot_versions", "100"), (r"server_args\.client_id_allowlist", "None"), (r"client_id_allowlist,", "client_id_allowlist: None,"),
+       (r"Server::new\(config, storage\)", "Server::new(ServerConfig::default(), storage)"), (r"http_server = http_server\.bind\(listen_address\)\?", "http_server.bind(listen_address)?;"),
+       (r"server_args\.data_dir", "OsString::from(\"/var/lib/taskchampion-sync-server\")")]
 
 def sh(cmd, cwd=None, env=None, timeout=900):
     return subprocess.run(cmd, shell=True, cwd=cwd, env=env, capture_output=True, text=True, timeout=timeout)
@@ -70,7 +73,7 @@ for f in FILES:
                         for u in UNITS[f]:
                             v = sh("python3 /verif/lib/vrun.py %s" % u, env=env)
                             out = v.stdout
-                            if "INCONCLUSIVE" in out or "errors=None" in out or "verified=0 errors=0" in out:
+                            if "INCONCLUSIVE" in out or "STUBBED" in out or "errors=None" in out or "verified=0 errors=0" in out:
                                 incon.append(out.strip().splitlines()[1][:160] if len(out.strip().splitlines()) > 1 else out[:160])
                             for l in out.splitlines():
                                 mm = re.search(r"clause=([A-Za-z0-9_.@:-]+)", l)
